@@ -2,10 +2,10 @@ package harness
 
 import (
 	"bytes"
-	"io"
 	"context"
 	"errors"
 	"fmt"
+	"io"
 	"strconv"
 	"strings"
 	"time"
@@ -227,12 +227,20 @@ func (w *World) Exec(op Op, ctx context.Context) {
 				id := simrt.Spawn("subt-client-adapter")
 				go simrt.RunG(id, func() {
 					defer close(ci)
+					var kept []SubElem // elements already delivered must not change afterwards
 					for v := range ct {
 						val := SubVal(v.Tok, v.K)
-						if op.Size > 0 && v.Pad != Result(val, op.Size) {
+						if op.Size > 0 && v.Pad != Result(val, op.Size) || !v.OptionalOK() {
 							val = -val - 1 // corrupted payload
 						}
+						kept = append(kept, v)
 						ci <- val
+					}
+					for _, v := range kept {
+						if !v.OptionalOK() {
+							ci <- -1000000 - v.K // an element changed after it had been delivered
+							break
+						}
 					}
 				})
 				w.consume(op, ci)
